@@ -103,6 +103,45 @@ func runC02(c *Ctx) {
 			}
 		}
 	}
+	// hybrid payloads: a top-level (version-1 style) kind together with a different kind and a version
+	// inside the nats section - kind dispatch, role check, loader and signed layout must all follow one of them
+	for _, ktop := range append([]string{}, kinds...) {
+		for _, knats := range kinds {
+			if ktop == knats {
+				continue
+			}
+			for _, ver := range []interface{}{nil, 1, 2} {
+				for _, layout := range []string{"v1", "v2"} {
+					for _, ir := range []string{"operator", "account", "server", "user"} {
+						s := kr.by[ir]
+						m := map[string]interface{}{"iss": s.pub, "sub": kr.by["account"].pub, "iat": 1700000000, "type": ktop}
+						nats := map[string]interface{}{"type": knats}
+						if ver != nil {
+							nats["version"] = ver
+						}
+						m["nats"] = nats
+						pj, _ := json.Marshal(m)
+						hdr := hdrV2
+						if layout == "v1" {
+							hdr = hdrV1
+						}
+						ft := forge(hdr, string(pj), layout, s)
+						ft.Note = fmt.Sprintf("hybrid top=%s nats=%s version=%v issuer=%s", ktop, knats, ver, ir)
+						_, o := processToken(c, w, ft)
+						c.sum.ImplChecks++
+						if o.Accepted && o.Kind != "generic" {
+							// the claims returned must declare the kind of the decoder that returned them
+							if d, err := jwt.Decode(ft.Token); err == nil && string(d.ClaimType()) != o.Kind {
+								c.violation("C02: a decoder returned claims of kind "+o.Kind+" that declare kind "+string(d.ClaimType()),
+									map[string]interface{}{"token": ft.Token, "payload_json": ft.Pay, "signed_layout": layout, "note": ft.Note})
+							}
+						}
+						distinct[fmt.Sprint("hyb", ktop, knats, ver, layout, ir, o.Accepted)] = true
+					}
+				}
+			}
+		}
+	}
 	// Encode side: kind x subject role (incl. non-key and empty) x signer role
 	signers := map[string]nkeys.KeyPair{}
 	for _, r := range []string{"operator", "account", "user", "server", "cluster"} {
@@ -430,7 +469,9 @@ func runC01(c *Ctx) {
 		f, o := processToken(c, w, ft)
 		base[name] = o
 		c.sum.ImplChecks++
-		if !o.Accepted {
+		// authorization claims have no version-1 form: a top-level kind alone does not make one
+		noV1Form := strings.HasPrefix(name, "forged_v1_authorization_")
+		if !o.Accepted && !noV1Form {
 			c.violation("C03: a token produced by the library's own encoder (or a correctly forged one) is refused by Decode", map[string]interface{}{"token": all[name], "note": name, "facts": f})
 		}
 		distinct["valid"+name] = true
